@@ -156,6 +156,80 @@ def _job(job):
     return [(sc_name, tag, r.kind, str(r.detail)) for r in res]
 
 
+PF_STUB_MOD = "sa_probe.pfstub"
+PF_STUB_SRC = '''
+MEMBERS = []
+
+
+class PortfolioStub(object):
+    """stands for pysmt.solvers.portfolio.Portfolio: records the members it is given, when it is given them"""
+
+    def __init__(self, solvers_set, environment, logic, **options):
+        self.members = [s for s in solvers_set]
+        MEMBERS.append(self.members)
+
+    def __enter__(self):
+        return self
+
+    def __exit__(self, exc_type, exc_val, exc_tb):
+        return False
+
+    def is_sat(self, formula):
+        return True
+
+    def is_valid(self, formula):
+        return True
+
+    def is_unsat(self, formula):
+        return False
+'''
+
+
+class _PortfolioArgWorld(proc.TypedWorld):
+    def global_override(self, it, module, name):
+        if module.name == "pysmt.factory" and name == "Portfolio":
+            return True, ClassRef(PF_STUB_MOD + ".PortfolioStub")
+        return proc.TypedWorld.global_override(self, it, module, name)
+
+
+def portfolio_argument_results():
+    """Factory.is_sat / is_valid / is_unsat with portfolio=<members>: the Portfolio is built over exactly the members given, whatever
+    iterable they arrive in (the parameter is an Iterable[str]: a list, a tuple, a one-shot iterator)."""
+    from ..absint import ListIter
+    repo = get_repo()
+    repo.add_virtual(PF_STUB_MOD, PF_STUB_SRC)
+    repo.add_virtual(REC_MOD, REC_SRC)
+    shape = Shape(("And", S("a"), ("LT", S("x", INT), S("y", INT))))
+    names = ["IntOnly", "Wide", ("RealOnly", {"random_seed": 3})]
+
+    def call(w, it, f):
+        classes = dict((n, ClassRef(REC_MOD + "." + n)) for n in ("IntOnly", "RealOnly", "Wide"))
+        lm = w.repo.modules["pysmt.logics"]
+        fac = AObj("pysmt.factory.Factory", {
+            "environment": w.env, "_all_solvers": dict(classes), "_all_unsat_core_solvers": dict(classes),
+            "preferences": {"Solver": ["IntOnly", "RealOnly", "Wide"], "Solver supporting Unsat Cores": ["IntOnly", "RealOnly", "Wide"]},
+            "_default_logic": it.module_global(lm, "QF_UFLIRA")})
+        w.env.attrs["_factory"] = fac
+        out = []
+        for api in ("is_sat", "is_valid", "is_unsat"):
+            for form in ("list", "tuple", "one-shot iterator"):
+                arg = list(names) if form == "list" else (tuple(names) if form == "tuple" else ListIter(list(names)))
+                rec = it.module_global(w.repo.modules[PF_STUB_MOD], "MEMBERS")
+                n0 = len(rec)
+                try:
+                    it.call(it.getattr(fac, api), [f], {"portfolio": arg})
+                    got = [list(m) for m in it.module_global(w.repo.modules[PF_STUB_MOD], "MEMBERS")[n0:]]
+                    out.append((api, form, "ok" if got == [list(names)] else "bad", got))
+                except AbsRaise as ex:
+                    out.append((api, form, "bad", "raises %s" % ex.cls_name))
+        return out
+    res = proc.run_proc(shape, call, post=lambda w, f, v, facts: proc.ProcResult(shape, "valid", v), services="full", max_paths=4,
+                        world_cls=_PortfolioArgWorld, interp_kwargs={"max_steps": 20000000, "max_loop": 200000})
+    if len(res) != 1 or res[0].kind != "valid":
+        return [("factory", "portfolio=", "unsupported", "%s %s" % (res[0].kind, str(res[0].detail)[:200]))]
+    return res[0].detail
+
+
 def _goal_job(idx):
     """Goal.get_logic: the logic reported for an optimisation goal enables the features of the goal's term - asked
     again after the goal grew (MaxSMT goals are extended clause by clause)."""
